@@ -152,7 +152,8 @@ def run(ctx: Ctx):
                        "mode table|column, labels in both orientations / duplicated / for missing records / NULL scores, "
                        "label column with NULLs, threshold_actual in {0,.25,.5,.75,1}, rounding None|dyadic|0.1|0.3, "
                        "scored-as-zero on/off, prediction-error threshold and include flags); a case is non-trivial when "
-                       "the table has >=2 rows, both classes are present and some pair is not found by blocking or tied; "
+                       "the table has >=2 rows, some labelled pair is a clerical positive and some pair is not found by blocking or tied in score; "
+                       "every call of a history yields 2 Coq terms (truth table, prediction errors); "
                        "distinct by full case.")
     ctx.trusted += [
         "translators/c15_rates.py (sqlglot parse of the final SELECT; grid 4^4 comparison of rate trees)",
